@@ -179,8 +179,8 @@ Section Eval.
             | _ => match run f (MExpr e1) s with Some (v, s1) => Some (v, setv s1 x v) | None => None end
             end
         | EList es => run f (MSeq es 0 VNone true) s
-        | Subscript (EList es) (Constant (CInt z)) =>
-            if Z.eqb z (-1) then run f (MSeq es 0 VNone false) s else None
+        | Subscript (EList es) (UnaryOp USub (Constant (CInt z))) =>
+            if Z.eqb z 1 then run f (MSeq es 0 VNone false) s else None      (* [...][-1] *)
         | IfExp t b o =>
             match run f (MExpr t) s with
             | Some (v, s1) => if truthy v then run f (MExpr b) s1 else run f (MExpr o) s1
